@@ -270,8 +270,9 @@ def ensure(sets):
         lock.close()
 
 
-def _prune(keep, n=3):
-    ds = [d for d in glob.glob(os.path.join(CACHE, "*")) if os.path.isdir(d)]
+def _prune(keep, n=4):
+    ds = [d for d in glob.glob(os.path.join(CACHE, "*")) if os.path.isdir(d)
+          and not os.path.basename(d).startswith("controls-")]
     ds.sort(key=os.path.getmtime, reverse=True)
     for d in ds[n:]:
         if os.path.basename(d) != keep:
